@@ -30,7 +30,7 @@ type propInfo struct {
 	shardsT   int
 	timeoutQ  time.Duration
 	timeoutT  time.Duration
-	needsE3   bool // inproc decides, E3 twin adds runs of the real binary
+	needsE3   bool     // inproc decides, E3 twin adds runs of the real binary
 	envMatrix []string // real UPDATE_SNAPS values, one group of processes per value
 }
 
